@@ -926,7 +926,9 @@ def prim_cases(rng, tier, deep_lens=None):
     quick = tier == "quick"
 
     def add(kind, p_lb, p_ub, ext, **kw):
-        c = dict(kind=kind, tag=tag_of(kind, p_lb, p_ub, ext), pre=rng.below(8), **kw)
+        # pre / post: BOOLEAN fields before and after the value (bit offsets 0..7 in front; what the codec leaves behind shows
+        # in the fields after it)
+        c = dict(kind=kind, tag=tag_of(kind, p_lb, p_ub, ext), pre=rng.below(8), post=[0, 1, 3][len(cs) % 3], **kw)
         cs.append(c)
     # INTEGER: constrained around every power of two, values at and around the bounds
     for R in RANGES:
@@ -1013,7 +1015,8 @@ def prim_coq_type(c):
         ep = coq_params(parse_tag(c.get('etag', '')))
         ft = '(TStruct [("Present"%%string, p_empty, TInt)%s])' % "".join('; ("A%d"%%string, %s, TPtr TInt)' % (i, ep) for i in range(1, c['nalt'] + 1))
     pre = "".join('("P%d"%%string, p_empty, TBool); ' % i for i in range(c['pre']))
-    return '(TStruct [%s("V"%%string, %s, %s)])' % (pre, coq_params(parse_tag(c['tag'])), ft)
+    post = "".join('; ("Q%d"%%string, p_empty, TBool)' % i for i in range(c.get('post', 0)))
+    return '(TStruct [%s("V"%%string, %s, %s)%s])' % (pre, coq_params(parse_tag(c['tag'])), ft, post)
 
 
 def prim_field_val(c, o=None):
@@ -1037,9 +1040,11 @@ def prim_field_val(c, o=None):
 def prim_coq_val(c, o=None):
     if o is not None:
         pre = "".join("(VBool %s); " % C.cbool(ch == '1') for ch in o.get('prebits', ''))
+        post = "".join("; (VBool %s)" % C.cbool(ch == '1') for ch in o.get('postbits', ''))
     else:
         pre = "".join("(VBool %s); " % C.cbool(i % 2 == 0) for i in range(c['pre']))
-    return "(VStruct [%s%s])" % (pre, prim_field_val(c, o))
+        post = "".join("; (VBool %s)" % C.cbool(i % 2 == 0) for i in range(c.get('post', 0)))
+    return "(VStruct [%s%s%s])" % (pre, prim_field_val(c, o), post)
 
 
 def prim_value_size(c):
@@ -1087,6 +1092,7 @@ def prim_ref_encode(c):
         if p['valueExt']: w.put(0, 1)
         cwn(w, p['valueUB'] + 1, pres - 1)
         ep = parse_tag(c['etag']); enc_int(w, ep['valueLB'], ep['valueUB'], ep['valueExt'], int(c['int']))
+    for i in range(c.get('post', 0)): w.put(1 if i % 2 == 0 else 0, 1)
     return w.out()
 
 
@@ -1094,6 +1100,7 @@ def prim_same(c, o):
     """does the decoder's output o carry the value of case c (up to BIT STRING padding bits)?"""
     k = c['kind']
     if o.get('prebits', '') != "".join('1' if i % 2 == 0 else '0' for i in range(c['pre'])): return False
+    if o.get('postbits', '') != "".join('1' if i % 2 == 0 else '0' for i in range(c.get('post', 0))): return False
     if k in ('int', 'enum'): return int(o.get('int', -1 << 70)) == int(c['int'])
     if k == 'bool': return int(o['int']) == (1 if int(c['int']) else 0)
     if k in ('octets', 'string'): return o.get('hex') == c['hex']
